@@ -229,6 +229,133 @@ fn run_windows(cx: &mut CaseCx, case: &Value) {
 }
 
 
+
+/// A bounded "algebraic adversary" holding ONE report: every XOR of 2..3 of its byte fields and every
+/// sum / difference / product / quotient of two of its field elements, used as payload key, as the shared
+/// message (-> derive_ske_key) and as sharing key (-> encrypted message -> derive_ske_key).
+fn run_single_report_algebra(cx: &mut CaseCx, case: &Value) {
+  use crate::refmodel as rm;
+  let t = case["t"].as_u64().unwrap() as u32;
+  let meas = meas_alphabet(true)[case["m"].as_u64().unwrap() as usize].clone();
+  let epoch = epoch_alphabet(true)[case["e"].as_u64().unwrap() as usize].clone();
+  let alen = case["alen"].as_u64().unwrap() as usize;
+  let aux = Some(prbytes(0x5A1 + alen as u64, alen));
+  let rnd = local_randomness(&meas, &epoch, t);
+  let mut group = vec![];
+  for i in 0..t.max(1) {
+    getrandom::verif::set_group(i + 1);
+    match gen_report(&meas, &epoch, t, &rnd, &aux) {
+      Ok(m) => group.push(m),
+      Err(e) => {
+        cx.viol("C03/generate-failed", e, json!({}));
+        return;
+      }
+    }
+  }
+  let msg = group[0].clone();
+  let pl = payload(&meas, &aux);
+  let parsed = match rm::parse_adss(&msg.share.to_bytes()) {
+    Some(p) => p,
+    None => {
+      cx.count("share_shape_unexpected", 1);
+      return;
+    }
+  };
+  let open_c = |k: &[u8]| -> Vec<u8> {
+    let mut st = strobe_rs::Strobe::new(b"adss encrypt", strobe_rs::SecParam::B128);
+    st.key(k, false);
+    let mut m = parsed.c.clone();
+    st.recv_enc(&mut m, false);
+    m
+  };
+  // is the replica of the share encryption valid? (true sharing key from ALL t shares, any y column)
+  let shares: Vec<sta_rs::Share> = group.iter().map(|m| m.share.clone()).collect();
+  let r0_true = recover_msg(&shares).ok().and_then(|r| r.ok());
+  let all: Vec<rm::AdssShare> = group.iter().filter_map(|m| rm::parse_adss(&m.share.to_bytes())).collect();
+  let replica_ok = all.len() == group.len()
+    && (0..parsed.s.y.len()).any(|c| {
+      if all.iter().any(|p| p.s.y.len() <= c) {
+        return false;
+      }
+      let pts: Vec<(num_bigint::BigUint, num_bigint::BigUint)> = all.iter().map(|p| (p.s.x.clone(), p.s.y[c].clone())).collect();
+      r0_true == Some(open_c(&rm::le24(&rm::lagrange_at_zero(&pts))[..16]))
+    });
+  cx.count(if replica_ok { "chain_replica_validated" } else { "chain_replica_unavailable" }, 1);
+  // candidate values
+  let mut cands: Vec<(String, Vec<u8>)> = vec![];
+  let ct = msg.ciphertext.to_bytes();
+  let mut fields: Vec<(&str, Vec<u8>)> = vec![("tag", msg.tag.clone()), ("C", parsed.c.clone()), ("D", parsed.d.clone())];
+  if parsed.j.len() >= 64 {
+    fields.push(("J[0..32]", parsed.j[..32].to_vec()));
+    fields.push(("J[32..64]", parsed.j[32..64].to_vec()));
+  }
+  if ct.len() >= 36 {
+    fields.push(("ciphertext[4..36]", ct[4..36].to_vec()));
+  }
+  let xor = |a: &[u8], b: &[u8]| -> Vec<u8> { a.iter().zip(b.iter()).map(|(x, y)| x ^ y).collect() };
+  for i in 0..fields.len() {
+    for j in i + 1..fields.len() {
+      let v = xor(&fields[i].1, &fields[j].1);
+      cands.push((format!("{} ^ {}", fields[i].0, fields[j].0), v.clone()));
+      for k in j + 1..fields.len() {
+        cands.push((format!("{} ^ {} ^ {}", fields[i].0, fields[j].0, fields[k].0), xor(&v, &fields[k].1)));
+      }
+    }
+  }
+  let mut elems: Vec<(String, num_bigint::BigUint)> = vec![("x".into(), parsed.s.x.clone())];
+  for (i, y) in parsed.s.y.iter().enumerate() {
+    elems.push((format!("y{}", i), y.clone()));
+  }
+  elems.push(("t".into(), rm::big(t as u128)));
+  for (na, a) in &elems {
+    cands.push((na.clone(), rm::le24(a).to_vec()));
+    cands.push((format!("-{}", na), rm::le24(&rm::negm(a)).to_vec()));
+    for (nb, b) in &elems {
+      if na == nb {
+        continue;
+      }
+      cands.push((format!("{} + {}", na, nb), rm::le24(&rm::addm(a, b)).to_vec()));
+      cands.push((format!("{} - {}", na, nb), rm::le24(&rm::subm(a, b)).to_vec()));
+      cands.push((format!("{} * {}", na, nb), rm::le24(&rm::mulm(a, b)).to_vec()));
+      if let Some(inv) = rm::invm(b) {
+        cands.push((format!("{} / {}", na, nb), rm::le24(&rm::mulm(a, &inv)).to_vec()));
+      }
+    }
+  }
+  cx.count("candidates", cands.len() as u64);
+  cx.nontrivial(fnv_str(&case.to_string()));
+  let opens = |key: &[u8]| -> bool { msg.ciphertext.decrypt(key, "star_encrypt") == pl };
+  for (name, v) in &cands {
+    if v.is_empty() {
+      continue;
+    }
+    let mut hits: Vec<&str> = vec![];
+    cx.eval();
+    if opens(&v[..v.len().min(16)]) || opens(v) {
+      hits.push("used directly as the payload key");
+    }
+    let mut k = vec![0u8; 16];
+    sta_rs::derive_ske_key(v, &epoch, &mut k);
+    if opens(&k) {
+      hits.push("used as the shared message (derive_ske_key of it is the payload key)");
+    }
+    if v.len() >= 16 && replica_ok {
+      let r0 = open_c(&v[..16]);
+      let mut k2 = vec![0u8; 16];
+      sta_rs::derive_ske_key(&r0, &epoch, &mut k2);
+      if opens(&k2) {
+        hits.push("used as the sharing key (it opens the share's encrypted message, which derives the payload key)");
+      }
+    }
+    if let Some(h) = hits.first() {
+      cx.viol("C03/decryptable-with-report-value/algebraic", format!("the payload of a single report (threshold {}) decrypts with the value {} computed from that report alone, {}", t, name, h), json!({"t": t, "value": name, "how": h, "aux_len": alen}));
+      return;
+    }
+  }
+  cx.outcome("sealed");
+  cx.sample(json!({"t": t, "candidates": cands.len(), "replica_validated": replica_ok}));
+}
+
 /// every associated-data length 0..=420 for two measurement lengths: nothing of it in the clear
 fn run_length_sweep(cx: &mut CaseCx, case: &Value) {
   let lo = case["lo"].as_u64().unwrap() as usize;
@@ -282,10 +409,12 @@ fn run_coalition(cx: &mut CaseCx, case: &Value) {
   }
   let pl = payload(&meas, &aux);
   let parsed: Vec<crate::refmodel::AdssShare> = msgs.iter().filter_map(|m| crate::refmodel::parse_adss(&m.share.to_bytes())).collect();
-  if parsed.len() != t as usize || parsed.iter().any(|p| p.s.y.len() != 1) {
+  if parsed.len() != t as usize || parsed.iter().any(|p| p.s.y.is_empty() || p.s.y.len() != parsed[0].s.y.len()) {
     cx.count("share_shape_unexpected", 1);
+    cx.note("the shares did not parse with one or more y values each: coalition check skipped for that threshold");
     return;
   }
+  let ncols = parsed[0].s.y.len();
   let open_c = |k: &[u8]| -> Vec<u8> {
     let mut st = strobe_rs::Strobe::new(b"adss encrypt", strobe_rs::SecParam::B128);
     st.key(k, false);
@@ -294,13 +423,23 @@ fn run_coalition(cx: &mut CaseCx, case: &Value) {
     m
   };
   // replica validation with the full set
-  let all: Vec<(num_bigint::BigUint, num_bigint::BigUint)> = parsed.iter().map(|p| (p.s.x.clone(), p.s.y[0].clone())).collect();
-  let k_true = crate::refmodel::le24(&crate::refmodel::lagrange_at_zero(&all));
+  // the y column that carries the sharing key (the layout has one column; a layout with several is searched)
   let shares: Vec<sta_rs::Share> = msgs.iter().map(|m| m.share.clone()).collect();
-  if recover_msg(&shares).ok().and_then(|r| r.ok()) != Some(open_c(&k_true[..16])) {
-    cx.count("chain_replica_unavailable", 1);
-    return;
-  }
+  let r0_true = recover_msg(&shares).ok().and_then(|r| r.ok());
+  let col = (0..ncols).find(|&c| {
+    let pts: Vec<(num_bigint::BigUint, num_bigint::BigUint)> = parsed.iter().map(|p| (p.s.x.clone(), p.s.y[c].clone())).collect();
+    let k = crate::refmodel::le24(&crate::refmodel::lagrange_at_zero(&pts));
+    r0_true == Some(open_c(&k[..16]))
+  });
+  let col = match col {
+    Some(c) => c,
+    None => {
+      cx.count("chain_replica_unavailable", 1);
+      cx.note("the Strobe replica of the share encryption did not reproduce the recovered message from any y column: coalition check skipped, never an alarm");
+      return;
+    }
+  };
+  let all: Vec<(num_bigint::BigUint, num_bigint::BigUint)> = parsed.iter().map(|p| (p.s.x.clone(), p.s.y[col].clone())).collect();
   cx.count("chain_replica_validated", 1);
   for k in 1..t as usize {
     let mut subsets: Vec<Vec<usize>> = vec![];
@@ -311,14 +450,32 @@ fn run_coalition(cx: &mut CaseCx, case: &Value) {
       subsets.push((t as usize - k..t as usize).collect());
     }
     for sub in subsets {
-      let pts: Vec<(num_bigint::BigUint, num_bigint::BigUint)> = sub.iter().map(|&i| all[i].clone()).collect();
-      let kk = crate::refmodel::le24(&crate::refmodel::lagrange_at_zero(&pts));
-      let r0 = open_c(&kk[..16]);
-      let mut key = vec![0u8; 16];
-      sta_rs::derive_ske_key(&r0, &epoch, &mut key);
-      cx.eval();
+      // candidates: interpolation of every y column through the coalition's points, and differences of columns
+      let mut cands: Vec<num_bigint::BigUint> = vec![];
+      for c in 0..ncols {
+        let pts: Vec<(num_bigint::BigUint, num_bigint::BigUint)> = sub.iter().map(|&i| (parsed[i].s.x.clone(), parsed[i].s.y[c].clone())).collect();
+        cands.push(crate::refmodel::lagrange_at_zero(&pts));
+      }
+      for a in 0..ncols {
+        for b in 0..ncols {
+          if a != b {
+            let d = crate::refmodel::subm(&cands[a], &cands[b]);
+            cands.push(d);
+          }
+        }
+      }
+      let _ = &all;
+      let mut opened = false;
+      for cand in &cands {
+        let kk = crate::refmodel::le24(cand);
+        let r0 = open_c(&kk[..16]);
+        let mut key = vec![0u8; 16];
+        sta_rs::derive_ske_key(&r0, &epoch, &mut key);
+        cx.eval();
+        opened |= msgs[0].ciphertext.decrypt(&key, "star_encrypt") == pl;
+      }
       cx.nontrivial(fnv_str(&format!("{}|{:?}", t, sub)));
-      if msgs[0].ciphertext.decrypt(&key, "star_encrypt") == pl {
+      if opened {
         cx.viol("C03/sub-threshold-coalition-opens-payload", format!("{} < t = {} reports suffice to open the payload: interpolating their share points gives the sharing key (the sharing polynomial has degree < t-1)", k, t), json!({"t": t, "coalition": sub}));
         return;
       }
@@ -469,6 +626,23 @@ pub fn spec() -> PropSpec {
         gen: |_| [2u64, 3, 4, 5, 6, 9, 13].iter().map(|t| json!({"t": t})).collect(),
         run: run_coalition,
         min_counts: &[("coalitions_sealed", 50)],
+      },
+      Check {
+        name: "single-report-algebra",
+        rule: "bounded algebraic adversary holding ONE report (t in {2,3,5}, 4 measurements x 2 epochs x aux lengths {8,40,200}): every XOR of 2 or 3 of {tag, C, D, J halves, ciphertext head} and, over {x, y_i, t}, every element, negation, sum, difference, product and quotient of two (~65 candidates per report): as payload key, as shared message (derive_ske_key) and as sharing key through the chain (self-validating Strobe replica): the payload must stay sealed",
+        gen: |_| {
+          let mut v = vec![];
+          for t in [2u64, 3, 5] {
+            for (m, e) in [(1usize, 1usize), (4, 0), (7, 2), (0, 1)] {
+              for alen in [8u64, 40, 200] {
+                v.push(json!({"t": t, "m": m, "e": e, "alen": alen}));
+              }
+            }
+          }
+          v
+        },
+        run: run_single_report_algebra,
+        min_counts: &[("candidates", 2000), ("chain_replica_validated", 10)],
       },
       Check {
         name: "cross-aggregation",
